@@ -18,7 +18,7 @@ THEOREMS = ["Mistune.refLookup_refAdd_same", "Mistune.refLookup_refAdd_other", "
 LABELS = ["foo", "Foo Bar", "ß", "a*b", "x y  z", "1", "ΑΓΩ", "Ǆ", "q\\]r", "İ", "ﬃ",
           # long labels: the limit of link labels counts a backslash escape as ONE character (so up to ~1000 source characters)
           "l" + "ong" * 160, "x" + "\\*" * 255, "y" + "\\*" * 300 + " z", "w " * 60 + "end", "e" + "\\]" * 200]
-URLS = ["/u", "<http://a.b/c d>", "/p(q)", "http://x.y/?a=1&b=2", "/é", "#frag"]
+URLS = ["/u", "<>", "<http://a.b/c d>", "/p(q)", "http://x.y/?a=1&b=2", "/é", "#frag"]
 TITLES = ["", ' "T"', " 'single'", " (paren)", ' "multi word title"']
 
 
@@ -80,7 +80,7 @@ def metamorphic(ctx, n_cases):
             v = variant(ctx.rng, label).replace("\n", " ")
             form = ctx.rng.choice(["[%s]", "[text][%s]", "[%s][]", "![img][%s]", "*em [%s] em*", "> quoted [%s]", "- li [%s]", "# h [%s]",
                                    # a reference followed by brackets that open no label, and references next to raw inline HTML (other than <a>)
-                                   "[%s][ rest", "[%s][unclosed *x*", "[%s][[x]] y", "<abbr>[%s]</abbr>", "<audio> [%s] z", "x <area> [%s]", "<b>[%s]</b> <aside>"]
+                                   "[%s][ rest", "[%s][unclosed *x*", "[%s][[x]] y", "<abbr>[%s]</abbr>", "<audio> [%s] z", "x <area> [%s]", "<b>[%s]</b> <aside>", "see [%s]`::new()` x", "![%s]`c`", "[%s]*em*", "[%s]<b>", "[%s]&amp;", "[%s]\\"]
                                   + (["note here[^n1]\n\n[^n1]: inside the note [%s] end", "| head |\n|------|\n| cell [%s] |", "term\n: definition [%s]", "- [ ] task [%s]", "~~del [%s]~~"] * 2 if plug else []))
             uses.append((form % v).replace("n1", "n%d" % (len(uses) + 1)))      # (footnote keys distinct per use)
         body = []
